@@ -26,8 +26,8 @@ import Blots.Model.Json
   a character that is not one of those.
 
   Text level (third part): `Blots.ExprPeg` (Model/ExprPeg.lean) is a character-level PEG model
-  of the grammar rule `expression` for a FRAGMENT — terms `conditional | do_block | lambda | list |
-  record | bool | string | null | identifier | number (ASCII digits) | nested_expression` (a
+  of the grammar rule `expression` for a FRAGMENT — terms `conditional | do_block | lambda |
+  assignment | list | record | bool | string | null | identifier | number (ASCII digits) | nested_expression` (a
   do-block by the rules `do_block`, `do_statement`, `return_statement`, its comments read and
   dropped; a lambda body by the rule
   `lambda_expression`, which has no `via` / `into` / `where` at its top level), prefix `-` `!` `not`, all four postfix forms (`!`,
@@ -43,7 +43,8 @@ import Blots.Model.Json
   body` (argument names that are identifiers), conditionals `if c then a else b`, string literals
   that do not contain both kinds of quote, record literals without comments, do-blocks `do { s₁
   … return e }` without comments whose statements are fragment expressions with a leftmost name
-  other than `via` / `into` / `where` (`do_block_in_fragment_iff`), over atoms (non-reserved
+  other than `via` / `into` / `where` (`do_block_in_fragment_iff`), assignments `name = value`
+  (`assignment_in_fragment_iff`), over atoms (non-reserved
   identifiers, built-in names, `true false null`, integers 0 ≤ n < 10^15).
 -/
 namespace Blots.C10
@@ -396,8 +397,8 @@ theorem text_roundtrip (t : Expr) (h : Frag t) : parseText (exprToSource t) = so
     as a string literal; in a do-block at least one blank or line break between `do` and `{`,
     anything behind `{` and in front of `}`, between two statements and in front of `return`
     either blanks, one `;` and anything, or any layout with a line break in it, and at least one
-    blank (no line break) behind `return`): the grammar yields the same items, and the same
-    tree. -/
+    blank (no line break) behind `return`; blanks only around the `=` of an assignment): the
+    grammar yields the same items, and the same tree. -/
 theorem layout_insensitive (t : Expr) (h : Frag t) (c : CST) (hr : Relayout t c) :
     (∀ fuel, fuelFor c.text ≤ fuel → exprItems fuel c.text = some (items t, [])) ∧
     parseText (String.ofList c.text) = some t := by
@@ -853,8 +854,7 @@ example : exprToSource (.record [en (.static "a\"b'") one]) = "{[(\"a\" + '\"' +
     a parenthesised operand or a prefix operator shields the name).  Such a statement IS printed
     safely — in parentheses, C07 `statement_start_protected` — but the formatter's layouts of it
     differ in their parentheses (`(via + b)` on one line, `via` ⏎ `+ b` on two), so it is left
-    out of the text-level theorems rather than described by a width-dependent syntax tree.
-    Assignments as statements belong to the statement level, which the model does not cover. -/
+    out of the text-level theorems rather than described by a width-dependent syntax tree. -/
 theorem do_block_in_fragment_iff (ss : List Item) (lead : List String) (e : Expr)
     (tr : Option String) :
     Frag (.doBlock ss (.mk lead e tr)) ↔
@@ -945,6 +945,66 @@ example : ¬ Frag (.doBlock [.mk ["// c"] xa none] (st one)) ∧
     Frag (.doBlock [st (.un .not (.ident "via"))] (st (.ident "via"))) ∧
     Frag (.doBlock [st (.bin .mul (.bin .add (.ident "via") xa) xb)] (st one)) ∧
     Frag (.doBlock [] (st one)) := by decide +kernel
+
+/-! #### assignments -/
+
+/-- WHICH ASSIGNMENTS ARE IN THE FRAGMENT: an identifier that is not a reserved word on the left
+    (`nameOk`: what the `identifier` rule accepts), a fragment tree on the right. -/
+theorem assignment_in_fragment_iff (n : String) (v : Expr) :
+    Frag (.assign n v) ↔ nameOk n = true ∧ Frag v := by
+  simp [Frag, frag_assign_iff]
+
+/-- `f = (x) => do {⏎  y = x + 1⏎  return y == c + z = b⏎}` : assignments as a statement, as the
+    value of an assignment, and as a right operand, where the printer writes no parentheses
+    (`c + z = b` is `c + (z = b)`: the value of an assignment extends as far right as possible) -/
+private abbrev u17 : Expr :=
+  .assign "f" (.lambda [.req "x"] (.doBlock [st (.assign "y" (.bin .add xx one))]
+    (st (.bin .eq (.ident "y") (.bin .add xc (.assign "z" xb))))))
+example : Frag u17 := by decide +kernel
+example : exprToSource u17 = "f = (x) => do {\n  y = x + 1\n  return y == c + z = b\n}" := by
+  decide +kernel
+example : parseText (exprToSource u17) = some u17 := text_roundtrip u17 (by decide +kernel)
+example : items u17 = [.prim u17] := by rfl
+example : reads "f = (x) => do {\n  y = x + 1\n  return y == c + z = b\n}" =
+    some "f = (x) => do {\n  y = x + 1\n  return y == c + z = b\n}" := by decide +kernel
+/-- a re-layout: blanks (or nothing) around `=` : `a⇥=b+⏎1` -/
+private abbrev u18 : Expr := .assign "a" (.bin .add xb one)
+private abbrev c18 : CST := .asg "a" [.tab] [] (.bin .add (.atom xb) [] [.lf] (.atom one))
+example : String.ofList c18.text = "a\t=b+\n1" := by decide +kernel
+example : Relayout u18 c18 := by
+  refine ⟨by rfl, ?_⟩
+  simp only [CST.LayoutOk]
+  decide
+example : parseText (String.ofList c18.text) = some u18 :=
+  (layout_insensitive u18 (by decide +kernel) c18 (by
+    refine ⟨by rfl, ?_⟩
+    simp only [CST.LayoutOk]
+    decide)).2
+/-- `assignment` is non-atomic: blanks, but no line break, around `=`; the value is an
+    `expression` (right-nested, it takes everything to its right); `==` is no assignment (the
+    rule takes `a =`, finds no expression at the second `=`, and gives way to `identifier`); the
+    target is an identifier — a reserved word, a field, a postfix form is none, a built-in name
+    is; as a LEFT operand or under a postfix operator an assignment needs parentheses (the
+    printer writes them), as a right operand, an argument, a record value, a condition, a lambda
+    body it does not -/
+example : reads "a = 1" = some "a = 1" ∧ reads "a=1" = some "a = 1" ∧ reads "a =\n1" = none ∧
+    reads "a\n= 1" = none ∧ reads "a == 1" = some "a == 1" ∧ reads "a = = 1" = none ∧
+    reads "a = b = 1" = some "a = b = 1" ∧ reads "a = b == 1" = some "a = b == 1" ∧
+    reads "a == b = 1" = some "a == b = 1" ∧ reads "1 + a = 2" = some "1 + a = 2" ∧
+    reads "(a = 2) + 1" = some "(a = 2) + 1" ∧ reads "-a = 1" = some "-a = 1" ∧
+    reads "a! = 1" = none ∧ reads "a != 1" = some "a != 1" ∧
+    reads "f(a = 1, b = 2)" = some "f(a = 1, b = 2)" ∧
+    reads "x => a = x via f" = some "(x) => a = x via f" ∧ reads "a = x => x" = some "a = (x) => x" ∧
+    reads "if a = 1 then b else c" = some "if a = 1 then b else c" ∧ reads "true = 1" = none ∧
+    reads "sqrt = 1" = some "sqrt = 1" ∧ reads "a.b = 1" = none ∧ reads "{a = 1}" = none ∧
+    reads "{a: b = 1}" = some "{a: b = 1}" ∧ reads "a += 1" = none := by decide +kernel
+example : exprToSource (.bin .add (.assign "a" (.num ⟨0x4000000000000000⟩)) one) = "(a = 2) + 1" ∧
+    exprToSource (.fact (.assign "a" one)) = "(a = 1)!" ∧
+    exprToSource (.bin .add one (.assign "a" (.num ⟨0x4000000000000000⟩))) = "1 + a = 2" := by
+  decide +kernel
+/-- outside the fragment: a target that is no identifier for the grammar -/
+example : ¬ Frag (.assign "if" one) ∧ ¬ Frag (.assign "a b" one) ∧ ¬ Frag (.assign "" one) ∧
+    Frag (.assign "sqrt" one) ∧ Frag (.assign "iffy" one) := by decide +kernel
 end text
 
 end Blots.C10
